@@ -6,10 +6,10 @@ def run(tier, seed):
     return run_property(
         "C01", tier, seed, level="other",
         deductive=[
-            ("c01_step", r"C01\.|\.post\.|no_other_exception|InvalidGradient|ValueError_only"),
+            ("c01_step", r"C01\.|\.post\.|no_other_exception|InvalidGradient|ValueError_only|iterates_over_the_contracted_sequence"),
             ("c01_rb", None),
             ("c01_topo", None),
-            ("c14_seed", r"C01\.sweep|collect_first|clear_graph_last|sweep_only|constant_receiver"),
+            ("c14_seed", r"C01\.sweep|collect_first|clear_graph_last|sweep_only|constant_receiver|iterates_over_the_contracted_sequence"),
         ],
         bounded=[("graph_bounded.py", ["--check", "C01"])],
         trusted=[
